@@ -7462,3 +7462,255 @@ func ruleIntegerBoundsMatchBaseType(c *core.Ctx) {
 		c.Undecided(rule, "anchor/range check", 0, "no `v.Cmp(lo) < 0 || v.Cmp(hi) > 0` range check chosen by a primitive was found in pkg/dsl")
 	}
 }
+
+// PC1 (C06): optional scalars are compared by value. The model keeps optional scalars as pointers (`Length *uint64`,
+// `Name *string`); `a.Length != b.Length` compares the two addresses, which differ for every pair of separately parsed
+// models — equal lengths read as changed (an array is incompatible with itself), and two absent values as equal only by
+// accident. A comparison of two pointers to basic types with == / != has nil on one side.
+func rulePointersToScalarsComparedByValue(c *core.Ctx) {
+	const rule = "PC1"
+	c.Rule(rule, "no == / != between two non-nil operands of a pointer-to-basic type (*uint64, *string, *bool …): such values are compared through a dereference", 40)
+	for _, d := range c.AllDecls() {
+		p := c.DeclPkg(d)
+		if p == nil || d.Body == nil || c.IsTestFile(d.Pos()) || !strings.HasPrefix(p.PkgPath, core.Mod) {
+			continue
+		}
+		info := p.TypesInfo
+		n := 0
+		isPtrToBasic := func(e ast.Expr) bool {
+			t := info.TypeOf(e)
+			if t == nil {
+				return false
+			}
+			pt, ok := t.Underlying().(*types.Pointer)
+			if !ok {
+				return false
+			}
+			_, basic := pt.Elem().Underlying().(*types.Basic)
+			return basic
+		}
+		ast.Inspect(d.Body, func(nn ast.Node) bool {
+			be, ok := nn.(*ast.BinaryExpr)
+			if !ok || (be.Op != token.EQL && be.Op != token.NEQ) {
+				return true
+			}
+			if !isPtrToBasic(be.X) && !isPtrToBasic(be.Y) {
+				return true
+			}
+			n++
+			key := fmt.Sprintf("%s/compare#%d", c.FuncName(d), n)
+			if isNilIdent(be.X) || isNilIdent(be.Y) {
+				c.OK(rule, key, be.Pos(), "nil test")
+				return true
+			}
+			c.Bad(rule, key, be.Pos(), fmt.Sprintf("`%s %s %s` compares two pointers, not the values they point to: equal values stored in different models compare as different", types.ExprString(be.X), be.Op, types.ExprString(be.Y)))
+			return true
+		})
+	}
+}
+
+// SH1 (C19): a copy made for the callee reaches the callee. `x := *outer; x.F = v` inside a block, where the enclosing
+// function already has a variable x that is used after the block, declares a second x: when the inner one is only ever
+// written (assigned, or assigned through — `x.F = …`) and never read, the statements were meant for the outer variable
+// and have no effect. (The compiler accepts it: a field assignment counts as a use.)
+func ruleShadowedVariableIsRead(c *core.Ctx) {
+	const rule = "SH1"
+	c.Rule(rule, "a variable declared with := that shadows a variable of an enclosing block of the same function is read somewhere in its scope (not only assigned or assigned through)", 60)
+	for _, d := range c.AllDecls() {
+		p := c.DeclPkg(d)
+		if p == nil || d.Body == nil || c.IsTestFile(d.Pos()) || !strings.HasPrefix(p.PkgPath, core.Mod) {
+			continue
+		}
+		info := p.TypesInfo
+		fscope := info.Scopes[d.Type]
+		if fscope == nil {
+			continue
+		}
+		n := 0
+		// positions where an identifier is written: the root identifier of an assignment's left-hand side
+		written := map[*ast.Ident]bool{}
+		ast.Inspect(d.Body, func(nn ast.Node) bool {
+			switch x := nn.(type) {
+			case *ast.AssignStmt:
+				for _, l := range x.Lhs {
+					e := ast.Unparen(l)
+					for {
+						switch y := e.(type) {
+						case *ast.SelectorExpr:
+							e = ast.Unparen(y.X)
+							continue
+						case *ast.IndexExpr:
+							e = ast.Unparen(y.X)
+							continue
+						case *ast.StarExpr:
+							e = ast.Unparen(y.X)
+							continue
+						}
+						break
+					}
+					if id, ok := e.(*ast.Ident); ok {
+						written[id] = true
+					}
+				}
+			case *ast.IncDecStmt:
+				if id, ok := ast.Unparen(x.X).(*ast.Ident); ok {
+					written[id] = true
+				}
+			}
+			return true
+		})
+		ast.Inspect(d.Body, func(nn ast.Node) bool {
+			as, ok := nn.(*ast.AssignStmt)
+			if !ok || as.Tok != token.DEFINE {
+				return true
+			}
+			for _, l := range as.Lhs {
+				id, ok := l.(*ast.Ident)
+				if !ok || id.Name == "_" {
+					continue
+				}
+				obj := info.Defs[id]
+				if obj == nil || obj.Parent() == nil {
+					continue
+				}
+				// an outer variable of the same name inside this function (or a parameter)
+				var outer types.Object
+				for s := obj.Parent().Parent(); s != nil && s != p.Types.Scope() && s != types.Universe; s = s.Parent() {
+					if o := s.Lookup(id.Name); o != nil && o.Pos() >= d.Pos() && o.Pos() <= d.End() {
+						if _, isVar := o.(*types.Var); isVar {
+							outer = o
+						}
+						break
+					}
+				}
+				if outer == nil {
+					continue
+				}
+				n++
+				key := fmt.Sprintf("%s/%s#%d", c.FuncName(d), id.Name, n)
+				read := false
+				uses := 0
+				ast.Inspect(d.Body, func(m ast.Node) bool {
+					if u, ok := m.(*ast.Ident); ok && info.Uses[u] == obj {
+						uses++
+						if !written[u] {
+							read = true
+						}
+					}
+					return true
+				})
+				// is the outer one used after the inner scope ends?
+				usedAfter := false
+				end := obj.Parent().End()
+				ast.Inspect(d.Body, func(m ast.Node) bool {
+					if u, ok := m.(*ast.Ident); ok && info.Uses[u] == outer && u.Pos() > end {
+						usedAfter = true
+					}
+					return true
+				})
+				if read || uses == 0 || !usedAfter {
+					c.OK(rule, key, id.Pos(), "the shadowing variable is read in its scope (or the outer one is not used afterwards)")
+				} else {
+					c.Bad(rule, key, id.Pos(), fmt.Sprintf("`%s :=` declares a new variable that shadows the `%s` of the enclosing block; it is only assigned to, never read, and the outer `%s` is what the code after the block uses: the assignments have no effect", id.Name, id.Name, id.Name))
+				}
+			}
+			return true
+		})
+	}
+}
+
+// E7b (C11): a sink is shared, not copied. validation.ErrorSink / WarningSink carry a slice; a function that receives the
+// sink by value, or a call that passes `*sink`, appends to a copy — the errors never reach the caller and the package is
+// accepted. E8: a function of the module that is given an error and answers with a single bool ("did it succeed")
+// is not called as a statement: the answer is the only thing left of the error.
+func ruleSinksSharedAndVerdictsUsed(c *core.Ctx) {
+	const rule7, rule8 = "E7b", "E8"
+	c.Rule(rule7, "no function of the module has a parameter, result or receiver of type validation.ErrorSink / WarningSink by value, and no call passes a dereferenced sink", 12)
+	c.Rule(rule8, "a module function with an error parameter and a single bool result is never called as a statement (its verdict is used)", 0)
+	isSink := func(t types.Type) bool {
+		nt := core.NamedOf(t)
+		return nt != nil && nt.Obj().Pkg() != nil && strings.HasSuffix(nt.Obj().Pkg().Path(), "internal/validation") && (nt.Obj().Name() == "ErrorSink" || nt.Obj().Name() == "WarningSink")
+	}
+	for _, d := range c.AllDecls() {
+		p := c.DeclPkg(d)
+		if p == nil || c.IsTestFile(d.Pos()) || !strings.HasPrefix(p.PkgPath, core.Mod) {
+			continue
+		}
+		info := p.TypesInfo
+		f, _ := info.Defs[d.Name].(*types.Func)
+		if f == nil {
+			continue
+		}
+		sig := f.Type().(*types.Signature)
+		mentions := false
+		byValue := ""
+		check := func(v *types.Var) {
+			if v == nil {
+				return
+			}
+			if pt, ok := v.Type().(*types.Pointer); ok {
+				if isSink(pt.Elem()) {
+					mentions = true
+				}
+			} else if isSink(v.Type()) {
+				byValue = v.Name()
+				mentions = true
+			}
+		}
+		for i := 0; i < sig.Params().Len(); i++ {
+			check(sig.Params().At(i))
+		}
+		// the methods of the sink types themselves (Add on *ErrorSink) are the implementation, not users
+		if sig.Recv() != nil && strings.HasSuffix(p.PkgPath, "internal/validation") {
+			mentions = false
+		}
+		if mentions {
+			c.Check(byValue == "", rule7, c.FuncName(d)+"/signature", d.Pos(), "the sink is received through a pointer",
+				"parameter `"+byValue+"` receives the sink by value: what the function adds goes into a copy and is lost to the caller — errors reported here do not fail the run")
+		}
+		if d.Body == nil {
+			continue
+		}
+		n := 0
+		ast.Inspect(d.Body, func(nn ast.Node) bool {
+			switch x := nn.(type) {
+			case *ast.CallExpr:
+				for _, a := range x.Args {
+					if st, ok := ast.Unparen(a).(*ast.StarExpr); ok && isSink(info.TypeOf(st)) && info.TypeOf(st) != nil {
+						if _, isPtr := info.TypeOf(st).(*types.Pointer); isPtr {
+							continue
+						}
+						n++
+						c.Bad(rule7, fmt.Sprintf("%s/argument#%d", c.FuncName(d), n), a.Pos(), "`"+types.ExprString(a)+"` passes a copy of the sink: errors added by the callee are lost")
+					}
+				}
+			case *ast.ExprStmt:
+				ce, ok := x.X.(*ast.CallExpr)
+				if !ok {
+					return true
+				}
+				cf := core.Callee(info, ce)
+				if cf == nil || !core.InModule(cf) {
+					return true
+				}
+				cs := cf.Type().(*types.Signature)
+				if cs.Results().Len() != 1 {
+					return true
+				}
+				if b, ok := cs.Results().At(0).Type().Underlying().(*types.Basic); !ok || b.Kind() != types.Bool {
+					return true
+				}
+				takesErr := false
+				for i := 0; i < cs.Params().Len(); i++ {
+					if cs.Params().At(i).Type().String() == "error" {
+						takesErr = true
+					}
+				}
+				if takesErr {
+					c.Bad(rule8, fmt.Sprintf("%s/%s", c.FuncName(d), cf.Name()), ce.Pos(), "`"+cf.Name()+"` is handed an error and reports success as a bool, and the call discards that bool: a failed run continues (and exits) like a successful one")
+				}
+			}
+			return true
+		})
+	}
+}
